@@ -355,3 +355,24 @@ CHECKS["C02"] = dict(
                "float epsilon as replay tolerance (the constant PathControl::check uses).",
     assumptions=["validity = inside the state-space bounds and outside the obstacles"],
 )
+
+CHECKS["C14"] = dict(
+    src="harness/C14_curves.cpp",
+    cases=dict(quick=150000, thorough=3000000),
+    fuzz=dict(runs=2000000, maxlen=200),
+    rule="Case = space {Dubins, symmetric Dubins, Reeds-Shepp} x turning radius (1 or log-uniform 0.25..4) x pose pair class {far 4..20 rho, within "
+         "4 rho (CCC words win), same position / different heading, collinear (ahead or behind, same or opposite heading), on the library's long-path "
+         "classification boundary +-1e-9..1e-2} x headings {uniform, multiples of pi/4 and pi/2, those +-1e-4 / +-1e-9}. Oracle: (i) Dubins distance = "
+         "rho x shortest of the six canonical words computed by an independent harness solver that validates every candidate by forward integration; "
+         "(ii) the curve sampled at 240 arc-length steps has chord <= step, heading change <= step/rho, no reversal for Dubins, ends at the target "
+         "pose, and its polyline length matches the reported distance; (iii) distance >= straight-line distance; (iv) symmetric Dubins and Reeds-Shepp "
+         "are symmetric, symmetric Dubins = min of both directions, Reeds-Shepp <= Dubins either way; (v) prefix law d(A, X_t) = t d(A,B). Slack "
+         "1e-5 (rho + d); pairs closer than 1e-5 max(1,rho) and mismatches that a 2e-6 nudge of the pose explains are unjudged (counted). "
+         "Non-trivial = pair in a boundary class or CCC-optimal. Distinct = consumed byte prefix.",
+    technique="property-based differential testing against an independent six-word Dubins solver + curve integration + metamorphic relations",
+    level_text="Generated pose pairs concentrated on classification boundaries are judged by an independent solver, by integrating the "
+               "interpolated curve and by relations between the three spaces. Exploration-level.",
+    level_note="Trusted: the harness's six-word solver (each candidate is validated by forward integration to the goal pose before it may "
+               "count). Numerical grain of the library (DUBINS_EPS / RS_EPS = 1e-6) is honoured as stated in the rule.",
+    assumptions=["poses closer than 1e-5 max(1, rho) are below the solvers' resolution and not judged"],
+)
